@@ -8,7 +8,7 @@ from common import Driver, DriverFailure, hx
 
 LEVEL = "proof"
 MANIFEST = dict(
-    text="Lean 4 invariants over a transition system of the receive queue, proved for EVERY reachable state (induction over action sequences): "
+    text="Lean 4 invariants over a transition system of the receive queue, proved for EVERY reachable state (induction over action sequences):  Session 4: the client event handler really suspends (0/250/0/120 ms by round) so peek and pop are separated by other consumers turns; a consumer task that ends with an exception is a violation."
          "FIFO conservation pops ++ queue = puts with distinct arrival numbers (each datagram leaves exactly once, never both taken and discarded), every pop "
          "is by a consumer that accepts the verb or by the unhandled consumer, the mark flag always designates the unchanged head (a discard happens only after a "
          "full polling interval unclaimed), mis-addressed packets re-queue nothing; and, when the event loop does not stall, no datagram is at the head for more than "
